@@ -15,7 +15,8 @@
 (* to what it was built from: the sweeper's configuration (cfgvb, sat/vb)    *)
 (* and the input set (per-input budgets, deadlines, rates offered before,    *)
 (* unconfirmed-parent infos as [weight, fee]).  The Sweep* invariants and    *)
-(* RegroupStart compare the two.                                             *)
+(* RegroupStart compare the two (they are part of SweepFeeTraceConform.cfg   *)
+(* too: a request that is not SweepReq(config, set) conforms to no model).   *)
 EXTENDS SweepFee, Json
 VARIABLE l
 
